@@ -11,7 +11,7 @@ from ..pm import U
 from . import common as C
 
 EXPLANATION = (
-    "Static analysis of KernelDG.check_for_loopcarried_dep, KernelDG._extend_path and the two front-end consumers. R1: the second copy's renumbering, both path-search targets and the inverse map use the same offset variable in the same affine form; R2: the offset's defining expression is normalised to max(c, M)+k / max(c, M+k) / M+k with M = max over the kernel's line numbers and k >= 1 is required (copy test false on every original node id, incl. M+0.1 load nodes); R3: every kernel line is a search root (a root may be passed over only under a test that its copy in the next iteration is unreachable; the search may run on G.subgraph(nodes on a source->target path), which contains every such path): the root loops iterate the whole kernel / the whole slice, no iteration can return to the loop head without performing the search (CFG), and a depth bound (cutoff), if any, is at least the kernel length or the graph's node count - never a worker's slice length; R4: the de-duplication key is built from the sorted member list (sort dominates key construction, membership test precedes insertion) and the member list that is kept is in that sorted order too; R5: every edge contributes its latency once to members and sum; R6: result list sorted before the dict is built; R7: text and dict select the maximum-latency cycle by the same expression with default 0.0. R8: the list-based report (Frontend.loopcarried_dependencies) iterates every entry of the dict returned by get_loopcarried_dependencies() - a re-keying of the entries (e.g. by first line) under which two cycles collapse, a slice or a filter is a violation - and prints each entry's latency and member lines (the obligation is C13-R1's, embedded)."
+    "Static analysis of KernelDG.check_for_loopcarried_dep, KernelDG._extend_path and the two front-end consumers. R1: the second copy's renumbering, both path-search targets and the inverse map use the same offset variable in the same affine form; R2: the offset's defining expression is normalised to max(c, M)+k / max(c, M+k) / M+k with M = max over the kernel's line numbers and k >= 1 is required (copy test false on every original node id, incl. M+0.1 load nodes); R3: every kernel line is a search root (a root may be passed over only under a test that its copy in the next iteration is unreachable; the search may run on G.subgraph(nodes on a source->target path), which contains every such path): the root loops iterate the whole kernel / the whole slice, no iteration can return to the loop head without performing the search (CFG), and a depth bound (cutoff), if any, is at least the kernel length or the graph's node count - never a worker's slice length; R4: the de-duplication key is built from the sorted member list (sort dominates key construction, membership test precedes insertion) and the member list that is kept is in that sorted order too; R5: every edge contributes its latency once to members and sum; R6: result list sorted before the dict is built; R7: text and dict select the maximum-latency cycle by the same expression with default 0.0. R8: the list-based report (Frontend.loopcarried_dependencies) iterates every entry of the dict returned by get_loopcarried_dependencies() - a re-keying of the entries (e.g. by first line) under which two cycles collapse, a slice or a filter is a violation - and prints each entry's latency and member lines (the obligation is C13-R1's, embedded). R9: the flag-dependency request reaches the construction of the doubled kernel unchanged (C03-R3 flag threading, embedded)."
 )
 NOT_DECIDED = (
     "Completeness/soundness of the reported set against an independent cycle enumerator on "
@@ -650,6 +650,12 @@ def run(ctx):
 
 
     lcd_cell_presence(ctx, "R7")
+    # R9: the doubled kernel in which the cycles are searched is built with the requested flag-dependency setting (C03-R3)
+    from . import c03
+    ctx.rule("R9", "the graph searched for cycles is built with the requested flag-dependency setting (C03-R3)")
+    C.embed(ctx, "C03", lambda sub: c03.flag_threading(sub, "R3"), "R9", "flag dependencies (C03-R3)",
+            "the doubled kernel in which loop-carried cycles are searched lacks (or gains) the flag-dependency edges the user asked "
+            "for: cycles carried through a flag register are not reported under --consider-flag-deps", f.where())
     # R8: the list-based report prints every cycle of the dict once (shared with C13-R1)
     from . import c13
     ctx.rule("R8", "the list-based LCD report iterates every entry of the dict (C13-R1)")
